@@ -116,6 +116,20 @@ def cases(rng, tier):
                 k1 = pre + base_k + suf
                 for k2 in {k1, base_k, base_k + suf, pre + base_k}:
                     out.append({"op": "hskey", "alg": alg, "k1": k1.hex(), "k2": k2.hex(), "kind": "hs-key-variant"})
+                    # the same octets in every form a caller can pass them (str = its UTF-8 octets, JWK dict, Key object, bare bytes)
+                    try:
+                        k1.decode(); k2.decode()
+                    except UnicodeDecodeError:
+                        continue
+                    for f1, f2 in (("str", "str"), ("str", "bytes"), ("bytes", "str"), ("jwk", "str"), ("str", "jwk")):
+                        if alg == "HS256" or (f1, f2) == ("str", "str"):
+                            out.append({"op": "hskey", "alg": alg, "k1": k1.hex(), "k2": k2.hex(), "f1": f1, "f2": f2, "kind": "hs-key-variant"})
+    # histories of JsonWebToken.encode calls that share one header dict (a module-level template) across keys with different kids:
+    # every token is accepted under the key set holding the signers' public keys
+    for alg in [a for a in R.ALL_ALGS if a != "none"]:
+        for kform in ("key", "jwk"):
+            for order in ([1, 2], [2, 1], [1, 2, 1]):
+                out.append({"op": "jwt_reuse", "alg": alg, "kform": kform, "order": order, "kind": "header-reuse"})
     payloads = PAYLOADS if tier == "thorough" else PAYLOADS[:5]
     for alg in R.ALL_ALGS:
         key = raw_key(alg)
@@ -192,17 +206,50 @@ def impl(c):
     if c["op"] == "hmac":
         import hmac, hashlib
         return {"mac": hmac.new(bytes.fromhex(c["k"]), bytes.fromhex(c["m"]), getattr(hashlib, f"sha{c['bits']}")).hexdigest()}
+    if c["op"] == "jwt_reuse":
+        jwt = JsonWebToken(R.ALL_ALGS)
+        def kobj(n, private):
+            if c["alg"].startswith("HS"):
+                k = OctKey.import_key(HS_SECRET if n == 1 else HS_SECRET2, {"kid": f"kid-{n}"})
+            else:
+                kk = R.keys()[R.key_for_alg(c["alg"], n)]
+                k = JsonWebKey.import_key(R.pem_private(kk) if private else R.pem_public(kk), {"kid": f"kid-{n}"})
+            return k
+        header = {"alg": c["alg"]}
+        res = []
+        ks = KeySet([kobj(1, False), kobj(2, False)])
+        for i, n in enumerate(c["order"]):
+            k = kobj(n, True)
+            claims = {"sub": f"s{i}"}
+            try:
+                tok = jwt.encode(header, claims, k.as_dict(is_private=True) if c["kform"] == "jwk" else k)
+            except Exception as e:
+                res.append({"sign": canon_err(e)}); continue
+            try:
+                got = jwt.decode(tok, ks)
+                res.append({"ok": dict(got) == claims, "kid": got.header.get("kid"), "want_kid": f"kid-{n}"})
+            except Exception as e:
+                res.append(canon_err(e))
+        return {"reuse": res}
     if c["op"] == "hskey":
         j = JsonWebSignature()
         k1, k2 = bytes.fromhex(c["k1"]), bytes.fromhex(c["k2"])
+        def form(k, f):
+            if f == "str":
+                return k.decode()
+            if f == "bytes":
+                return k
+            if f == "jwk":
+                return {"kty": "oct", "k": R.b64u(k).decode()}
+            return OctKey.import_key(k)
         try:
-            tok = j.serialize_compact({"alg": c["alg"]}, b"payload", OctKey.import_key(k1))
+            tok = j.serialize_compact({"alg": c["alg"]}, b"payload", form(k1, c.get("f1")))
         except Exception as e:
             return {"sign_error": type(e).__name__}
         si, sseg = tok.rsplit(b".", 1)
         res = {"ref_verifies_k1": bool(R.verify(c["alg"], k1, si, lenient(sseg))), "ref_verifies_k2": bool(R.verify(c["alg"], k2, si, lenient(sseg)))}
         try:
-            j.deserialize_compact(tok, OctKey.import_key(k2)); res["verifies_k2"] = True
+            j.deserialize_compact(tok, form(k2, c.get("f2"))); res["verifies_k2"] = True
         except Exception as e:
             res["verifies_k2"] = False
         return res
@@ -266,7 +313,7 @@ def verify_entries(c, pairs):
 
 
 def model_line(c):
-    if c["op"] == "hskey":
+    if c["op"] in ("hskey", "jwt_reuse"):
         return None
     if c["op"] == "hmac":
         return {"op": "hmac", "bits": c["bits"], "k": c["k"], "m": c["m"], "key": {"oct": ""}, "headers": {}}
@@ -313,6 +360,14 @@ def oracle(c, out):
     v = []
     if c["op"] == "hmac":
         return v
+    if c["op"] == "jwt_reuse":
+        for i, r in enumerate(out["reuse"]):
+            if r.get("ok") is not True or r.get("kid") != r.get("want_kid"):
+                v.append((f"{c['alg']}: JWT #{i + 1} of a history of encode() calls sharing one header dict (keys {c['order']}, given as {c['kform']}) "
+                          f"is not accepted under the key set of the signers' public keys / does not name its signing key: {r}",
+                          {"alg": c["alg"], "op": "jwt_reuse", "kind": "own-token-refused"}))
+                break
+        return v
     if c["op"] == "hskey":
         sg = {"alg": c["alg"], "op": "hskey", "kind": "hmac-key-not-used-as-given"}
         if "sign_error" in out:
@@ -320,7 +375,8 @@ def oracle(c, out):
         if not out["ref_verifies_k1"]:
             v.append((f"token signed with the {len(c['k1']) // 2}-octet HMAC key {c['k1'][:16]}… does not verify under that key with the independent verifier", sg))
         if out["verifies_k2"] != out["ref_verifies_k2"]:      # (HMAC itself zero-pads short keys: K and K‖00 are the same key to every implementation)
-            v.append((f"token signed with key {c['k1'][:16]}… {'verifies' if out['verifies_k2'] else 'does not verify'} under key {c['k2'][:16]}…", sg))
+            v.append((f"token signed with key {bytes.fromhex(c['k1'])!r} (given as {c.get('f1', 'OctKey')}) {'verifies' if out['verifies_k2'] else 'does not verify'} "
+                      f"under key {bytes.fromhex(c['k2'])!r} (given as {c.get('f2', 'OctKey')})", sg))
         return v
     sig = {"alg": c["alg"], "op": c["op"], "mutation": c["kind"].split(":")[0]}
     key = ref_key(c)
@@ -369,14 +425,18 @@ def oracle(c, out):
 
 
 def classify(c, out):
+    if c["op"] == "jwt_reuse":
+        return f"jwt_reuse/{c['kform']}/{len(c['order'])}"
     if c["op"] == "hskey":
-        return "hskey/" + ("refused" if "sign_error" in out else ("same" if c["k1"] == c["k2"] else "different"))
+        return f"hskey/{c.get('f1', 'key')}-{c.get('f2', 'key')}/" + ("refused" if "sign_error" in out else ("same" if c["k1"] == c["k2"] else "different"))
     return f"{c['op']}/{c['kind'].split(':')[0]}/" + ("ok" if "ok" in out else out.get("error", out.get("raised", "?")))
 
 
 def nontrivial(c, out):
+    if c["op"] == "jwt_reuse":
+        return [c["alg"], c["kform"], c["order"]]
     if c["op"] == "hskey":
-        return [c["alg"], c["k1"], c["k2"]]
+        return [c["alg"], c["k1"], c["k2"], c.get("f1"), c.get("f2")]
     if c["op"] == "hmac":
         return None
     return [c.get("token") or json.dumps(c["obj"], sort_keys=True), c["kn"], c["form"], c["allowed"]]
